@@ -32,6 +32,7 @@ type isoCfg struct {
 	Trust      int  // 0 TrustProxy off (forwarding headers honoured); 1 on, peer trusted; 2 on, peer not trusted
 	ProxyHdr   bool // ProxyHeader = X-Forwarded-For
 	Mount      bool // a sub-app with an ErrorHandler of its own is mounted under /admin
+	SiteVars   bool // a middleware binds the app's site-wide view variables (one map it keeps) on every request
 }
 
 // widen draws the configuration dimensions added after the first round.
@@ -45,11 +46,12 @@ func (c *isoCfg) widen(r interface {
 	c.Trust = r.Intn(3)
 	c.ProxyHdr = r.Chance(1, 3)
 	c.Mount = r.Chance(1, 2)
+	c.SiteVars = r.Chance(1, 3)
 }
 
 func (c isoCfg) String() string {
-	return fmt.Sprintf("custom=%v passlocals=%v immutable=%v cs=%v strict=%v nomw=%v ehstate=%v touch=%v trust=%d proxyhdr=%v mount=%v",
-		c.Custom, c.PassLocals, c.Immutable, c.CaseSens, c.Strict, c.NoMW, c.EHState, c.Touch, c.Trust, c.ProxyHdr, c.Mount)
+	return fmt.Sprintf("custom=%v passlocals=%v immutable=%v cs=%v strict=%v nomw=%v ehstate=%v touch=%v trust=%d proxyhdr=%v mount=%v sitevars=%v",
+		c.Custom, c.PassLocals, c.Immutable, c.CaseSens, c.Strict, c.NoMW, c.EHState, c.Touch, c.Trust, c.ProxyHdr, c.Mount, c.SiteVars)
 }
 
 type customCtx struct {
@@ -80,6 +82,8 @@ type isoSink struct {
 	probes   int
 	vec      map[string]string // component -> canonical JSON
 	reused   bool
+	holdAt   chan struct{}     // overlap cases: the probe reports that it is parked …
+	release  chan struct{}     // … and waits here
 	ehVec    map[string]string // what the ErrorHandler invoked last observed
 	ehCount  int
 	ehReused bool
@@ -122,6 +126,18 @@ func (s *isoSink) ehObserve(c fiber.Ctx, err error, which string) {
 	v["old-inputs"] = canon(c.Redirect().OldInputs())
 	v["resp-at-entry"] = canon(map[string]any{"status": c.Response().StatusCode(), "headers": c.GetRespHeaders()})
 	s.ehVec = v
+}
+
+// the two peers connections come from (see remoteAddr); Trust 1 trusts the first, Trust 2 the second
+const altPeerIP = "198.51.100.23"
+
+// hold parks a request that carries hold=1 inside its handler until the driver releases it, so
+// that other requests can be served while it is open.
+func (s *isoSink) hold(c fiber.Ctx) {
+	if s.holdAt != nil && c.Query("hold") == "1" {
+		s.holdAt <- struct{}{}
+		<-s.release
+	}
 }
 
 type ptrEntry struct {
@@ -294,7 +310,7 @@ var (
 	fileRoot string
 )
 
-var fileNames = map[string]string{"a": "a.txt", "b": "b.html", "c": "c.json"}
+var fileNames = map[string]string{"a": "a.txt", "b": "b.html", "c": "c.json", "x": "no-such-file.txt"}
 
 func fileDir() string {
 	fileOnce.Do(func() {
@@ -390,7 +406,7 @@ func isoBuild(cfg isoCfg) (*fiber.App, *isoSink) {
 		fc.TrustProxyConfig = fiber.TrustProxyConfig{Proxies: []string{"203.0.113.7"}}
 	case 2:
 		fc.TrustProxy = true
-		fc.TrustProxyConfig = fiber.TrustProxyConfig{Proxies: []string{"198.51.100.1"}}
+		fc.TrustProxyConfig = fiber.TrustProxyConfig{Proxies: []string{altPeerIP}}
 	}
 	if cfg.ProxyHdr {
 		fc.ProxyHeader = fiber.HeaderXForwardedFor
@@ -403,6 +419,14 @@ func isoBuild(cfg isoCfg) (*fiber.App, *isoSink) {
 	}
 
 	// entry middleware: logs which pooled object serves the request
+	if cfg.SiteVars {
+		// site-wide template variables: one map the app keeps, bound first on every request
+		siteVars := fiber.Map{"site": "fiber-site", "lang": "en", "title": "default title"}
+		app.Use(func(c fiber.Ctx) error {
+			_ = c.ViewBind(siteVars)
+			return c.Next()
+		})
+	}
 	if !cfg.NoMW {
 		app.Use(func(c fiber.Ctx) error {
 			s.note(c)
@@ -540,6 +564,7 @@ func isoBuild(cfg isoCfg) (*fiber.App, *isoSink) {
 	}))
 
 	app.Get("/base", w(func(c fiber.Ctx) error {
+		_ = c.ViewBind(fiber.Map{"crumb": "base-of-" + c.Host()})
 		c.Set("X-Base", c.BaseURL())
 		c.Cookie(&fiber.Cookie{Name: "hist", Value: "set-by-base"})
 		return c.Status(202).SendString(c.BaseURL() + " " + c.Hostname())
@@ -607,14 +632,16 @@ func isoBuild(cfg isoCfg) (*fiber.App, *isoSink) {
 			}
 		}
 		err := c.SendFile(path, cfg)
+		s.hold(c)
 		if isProbe {
-			s.vec = map[string]string{"sendfile-error": canon(errStr(err))}
+			s.vec = map[string]string{"sendfile-error": canon(errStr(err)), "sendfile-status": canon(c.Response().StatusCode())}
 		}
 		return err
 	}))
 
 	// --- the probe ------------------------------------------------------------------------
 	probe := func(c fiber.Ctx) error {
+		s.hold(c)
 		s.probes++
 		if s.seenBefore(c) {
 			s.reused = true
